@@ -424,6 +424,24 @@ func (s *ScriptIface) VarlinkDispatch(ctx context.Context, c varlink.Call, metho
 		case "nan":
 			// a value that has no JSON encoding: the reply attempt must be refused (reported to the handler) with nothing written
 			params = map[string]interface{}{"x": math.NaN()}
+		case "badraw-nul":
+			params = json.RawMessage("{\"a\":\"x\x00y\"}")
+		case "badraw-trunc":
+			params = json.RawMessage(`{"a":[1,2`)
+		case "badraw-tail":
+			params = json.RawMessage(`{"a":1},"error":"x.y.Forged","continues":true,"z":{"b":2}`)
+		case "badrawptr-nul":
+			r := json.RawMessage("{\"a\":1}\x00{\"b\":2}")
+			params = &r
+		case "badrawptr-tail":
+			r := json.RawMessage(`{} {}`)
+			params = &r
+		case "badchan":
+			params = map[string]interface{}{"c": make(chan int)}
+		case "badmarshaler-err":
+			params = scriptBadMarshaler{fail: true}
+		case "badmarshaler-bytes":
+			params = map[string]interface{}{"m": scriptBadMarshaler{}}
 		}
 		switch op.Op {
 		case "reply":
@@ -456,7 +474,7 @@ func (s *ScriptIface) VarlinkDispatch(ctx context.Context, c varlink.Call, metho
 		}
 		res.Err = errStr(err)
 		record(res)
-		if op.Ret && op.Go != "nan" { // (what a oneway call reports for unencodable parameters is not fixed: never return on it)
+		if op.Ret && !Unencodable(op.Go) { // (what a oneway call reports for unencodable parameters is not fixed: never return on it)
 			return finish(err)
 		}
 	}
@@ -698,4 +716,14 @@ func activeConns(s *varlink.Service) int64 {
 		panic("HARNESS: the service's connection accounting could not be located by the white-box accessor (field renamed?)")
 	}
 	return n
+}
+
+// scriptBadMarshaler is a json.Marshaler that fails, or returns bytes that are not a JSON value.
+type scriptBadMarshaler struct{ fail bool }
+
+func (m scriptBadMarshaler) MarshalJSON() ([]byte, error) {
+	if m.fail {
+		return nil, errors.New("this value has no JSON encoding")
+	}
+	return []byte("{\"a\":\"x\x00\"}\x00"), nil
 }
